@@ -50,6 +50,13 @@ def main():
 
     from mc import explore, report
     sys.stdin = open(os.devnull)
+    if args.replay:
+        args.replay = os.path.abspath(args.replay)
+    # student programs of the alphabets may try to create files (that is one of the things the sandbox must stop):
+    # whatever gets through lands in a scratch directory, not in /verif
+    scratch = os.path.join(os.path.dirname(os.path.abspath(__file__)), '.work', 'cwd')
+    os.makedirs(scratch, exist_ok=True)
+    os.chdir(scratch)
     import pedal
     if not os.path.realpath(pedal.__file__).startswith(os.path.realpath(REPO) + os.sep):
         print('HARNESS-ERROR: pedal imported from %s, not from %s' % (pedal.__file__, REPO))
